@@ -449,7 +449,7 @@ func TestVerifTW(t *testing.T) {
 			herr = fmt.Errorf("handleConn did not return")
 		}
 		exited := false
-		for i := 0; i < 2000; i++ {
+		for i := 0; i < 6000; i++ {
 			g.mu.Lock()
 			exited = g.exited
 			g.mu.Unlock()
